@@ -47,9 +47,11 @@ InducedPovmStatistics == (Len(chain) >= 2 /\ chain[Len(chain)].k = "M" /\ val.ki
 PostStates(n) == [k \in 1..Len(QPovm(n)) |-> QState(<<"x1", "y0", "z1", "mix1", "z0">>[k])]
 Lueders(n) == CASE n = "x" -> M_mx [] n = "y" -> M_my [] n = "z" -> M_mz
                 [] n = "p4" -> <<MatScale(R(1, 2), L_z0), MatScale(R(1, 2), L_z1), MatScale(R(1, 2), L_yp), MatScale(R(1, 2), L_ym)>>
+                \* p5 has the element I/4 with a repeated eigenvalue: its Lueders operation is (1/4) identity (coherences survive)
+                [] n = "p5" -> M_m5
 GenMProcess(n, md) == IF md = 2 THEN [k \in 1..Len(QPovm(n)) |-> MeasurePrepareH(QPovm(n)[k], PostStates(n)[k], NU)]
                       ELSE Lueders(n)
-GenDefined(n, md) == md = 2 \/ n \in {"x", "y", "z", "p4"}
+GenDefined(n, md) == md = 2 \/ n \in {"x", "y", "z", "p4", "p5"}
 GenInducesPovm == (gen # NoGen /\ GenDefined(gen.povm, gen.mode)) =>
     /\ InducedPovmH(GenMProcess(gen.povm, gen.mode), NU) = QPovm(gen.povm)
     /\ IsTPH(SumMatsR(GenMProcess(gen.povm, gen.mode), 4))
